@@ -275,6 +275,11 @@ fn forbidden(env: &Env, it: &Item) {
         }
         if !is_id { let mut x = b.cwp.clone(); x[..48].copy_from_slice(&bytes); expect_err(Kind::Commitment, "C", name, &x, "octets", zk.dec_commitment(&x)); }
     }
+    // the OTHER valid encoding of the same point given to the compressed decoders (two accepted encodings of one object)
+    { let gk = G2Affine::from_compressed(&b.key.pk.clone().try_into().unwrap()).unwrap(); let u = gk.to_uncompressed().to_vec(); expect_err(Kind::Pk, "W", "uncompressed 192-octet encoding", &u, "octets", zk.dec_pk(&u)); }
+    { let ga = G1Affine::from_compressed(&b.sig[..48].try_into().unwrap()).unwrap(); let mut x = ga.to_uncompressed().to_vec(); x.extend_from_slice(&b.sig[48..]); expect_err(Kind::Sig, "A", "uncompressed 96-octet encoding of A", &x, "octets", zk.dec_sig(&x)); }
+    { let ga = G1Affine::from_compressed(&b.proof[..48].try_into().unwrap()).unwrap(); let mut x = ga.to_uncompressed().to_vec(); x.extend_from_slice(&b.proof[48..]); expect_err(Kind::Proof, "Abar", "uncompressed 96-octet encoding of Abar", &x, "octets", zk.dec_proof(&x)); }
+    { let ga = G1Affine::from_compressed(&b.cwp[..48].try_into().unwrap()).unwrap(); let mut x = ga.to_uncompressed().to_vec(); x.extend_from_slice(&b.cwp[48..]); expect_err(Kind::Commitment, "C", "uncompressed 96-octet encoding of C", &x, "octets", zk.dec_commitment(&x)); }
     // wrong total lengths for the fixed-size kinds: every length != canonical in 0..=2*canonical
     for (k, honest) in [(Kind::Pk, &b.key.pk), (Kind::Sk, &b.key.sk), (Kind::Sig, &b.sig)] {
         for n in 0..=2 * honest.len() { if n == honest.len() { continue; } let mut x: Vec<u8> = honest.iter().copied().take(n).collect(); x.resize(n, 0); expect_err(k, "length", "wrong total length", &x, "octets", dec(zk, k, &x)); }
